@@ -19,26 +19,33 @@ Negotiate(mine, theirs) ==
    ELSE LET common == {mine[i] : i \in 1..Len(mine)} \cap theirs.s IN
         IF common = {} THEN ErrVer ELSE MaxOf(common)
 
-\* ---- I level: one node querying one peer repeatedly through its cache ----
+\* ---- I level: one node querying two peers, in any order, repeatedly, through its per-peer cache ----
+\* mine is the node's own list as the helper finds it (the code keeps it in a slice that negotiation must not
+\* touch), mine0 the list it was configured with and advertises.
+\* Deviation "SortsOwnList" (seed C19-3): the negotiation with a listing peer sorts the own list in place, so the
+\* base version used for a LATER peer without a list becomes the smallest own version.
 VARIABLES mine, theirs, cache, last, n
 vars == <<mine, theirs, cache, last, n>>
 Adv(S) == [k |-> "set", s |-> S]
 Adverts == {Adv(S) : S \in SUBSET Universe \ {{}}} \cup {[k |-> "none", s |-> {}], [k |-> "bad", s |-> {}]}
 Orders(S) == {s \in [1..Cardinality(S) -> S] : \A i, j \in 1..Cardinality(S) : i # j => s[i] # s[j]}
-Init == /\ \E S \in SUBSET Universe \ {{}} : mine \in Orders(S)
-        /\ theirs \in Adverts /\ cache = NoVer /\ last = NoVer /\ n = 0
-Query == /\ n < 3 /\ n' = n + 1
-         /\ IF cache # NoVer THEN last' = cache /\ UNCHANGED cache
-            ELSE LET v == Negotiate(mine, theirs) IN
-                 /\ last' = v
-                 /\ cache' = IF v = ErrVer
-                             THEN (IF "CacheZeroOnError" \in Devs /\ theirs.k # "bad" THEN 0 ELSE NoVer)
-                             ELSE v
-         /\ UNCHANGED <<mine, theirs>>
-Next == Query
+Sorted(m) == CHOOSE s \in Orders({m[i] : i \in 1..Len(m)}) : \A i \in 1..Len(m) - 1 : s[i] < s[i + 1]
+Peers == {1, 2}
+Init == /\ \E S \in SUBSET Universe \ {{}} : \E m \in Orders(S) : mine = [cur |-> m, cfg |-> m]
+        /\ theirs \in [Peers -> Adverts] /\ cache = [p \in Peers |-> NoVer] /\ last = [v |-> NoVer, want |-> NoVer] /\ n = 0
+Query(p) == /\ n < 4 /\ n' = n + 1
+            /\ IF cache[p] # NoVer THEN last' = [v |-> cache[p], want |-> Negotiate(mine.cfg, theirs[p])] /\ UNCHANGED <<cache, mine>>
+               ELSE LET v == Negotiate(mine.cur, theirs[p]) IN
+                    /\ last' = [v |-> v, want |-> Negotiate(mine.cfg, theirs[p])]
+                    /\ cache' = [cache EXCEPT ![p] = IF v = ErrVer
+                                                     THEN (IF "CacheZeroOnError" \in Devs /\ theirs[p].k # "bad" THEN 0 ELSE NoVer)
+                                                     ELSE v]
+                    /\ mine' = IF "SortsOwnList" \in Devs /\ theirs[p].k = "set" THEN [mine EXCEPT !.cur = Sorted(mine.cur)] ELSE mine
+            /\ UNCHANGED theirs
+Next == \E p \in Peers : Query(p)
 Spec == Init /\ [][Next]_vars
-\* every answer, first or repeated, is the negotiated version (or the error)
-AnswerIsNegotiated == n > 0 => last = Negotiate(mine, theirs)
+\* every answer, first or repeated, to whichever peer, is what the configured list and the peer's advertisement give
+AnswerIsNegotiated == n > 0 => last.v = last.want
 
 \* ---- symmetry of the rule: two nodes that both advertise their (implemented) sets agree ----
 Agree == \A a, b \in SUBSET Universe \ {{}} :
